@@ -165,3 +165,10 @@ prop("C09", lambda tier: [e1("c09", "harness/c09_felock.c")],
      "single-slot mailbox with 1-2 producers, 1-2 consumers, 2-3 items, optional plain lock/unlock observer, x all schedules with <= K deviations")
 prop("C14", lambda tier: [e1("c14", "harness/c14_once.c")],
      "1-3 concurrent callers (+ main) + a late call x init routine in {plain, yields, blocks on a mutex, creates and joins a thread} x all schedules with <= K deviations")
+
+prop("C12", lambda tier: [e1("c12", "harness/c13_reap.c", harness_flags="-DPROP_C12")],
+     "18 create/join/detach/try-join/timed-join programs with late joins after intervening creations and mixed stack sizes (default, 4K, 8K, 12K, 64K) "
+     "x all schedules with <= K deviations on 1-3 workers; the ownership ledger behind the ALLOC/FREE hooks judges every hand-out and release")
+prop("C13", lambda tier: [e1("c13", "harness/c13_reap.c")],
+     "all histories of <=2 (quick) / <=3 (thorough) create/reap cycles over reap modes {join, try-join loop, timed-join, detach, created detached by attribute} x body {returns, yields} "
+     "+ detach-after-finish / racing programs, x all schedules with <= K deviations; ledger quiescence + no fresh allocation after the first cycle on one worker")
